@@ -1697,6 +1697,13 @@ static psRes_t tls13ParseCertificateRequest(ssl_t *ssl,
             ssl->err = SSL_ALERT_HANDSHAKE_FAILURE;
             return PS_PARSE_FAIL;
         }
+        /* The extension must lie inside the message before any of the
+           extension parsers is given its length */
+        if (!psParseCanRead(pb, extensionLen))
+        {
+            ssl->err = SSL_ALERT_DECODE_ERROR;
+            return PS_PARSE_FAIL;
+        }
         /* Handle extensions */
         if (extensionId == EXT_SIGNATURE_ALGORITHMS ||
             extensionId == EXT_SIGNATURE_ALGORITHMS_CERT)
